@@ -96,9 +96,17 @@ QUATS = [[1, 0, 0, 0], [1, 1, 0, 0], [1, 0, 1, 0], [1, 1, 1, 1], [2, 1, 0, 0], [
 def embed_spec(rng):
     """Random embedding: rotation (identity, coordinate planes, generic rational, tiny tilt),
     translation (none, moderate, far away) and power-of-two scale."""
-    return {"q": rng.choice(QUATS),
-            "t": rng.choice([[0, 0, 0], [0, 0, 0], [0.5, -2.0, 3.0], [1000.0, -500.0, 250.0]]),
-            "k": rng.choice([0, 0, 0, -20, -8, -3, 2, 6, 10])}
+    q = rng.choice(QUATS)
+    t = rng.choice([[0, 0, 0], [0, 0, 0], [0.5, -2.0, 3.0], [1000.0, -500.0, 250.0]])
+    k = rng.choice([0, 0, 0, -20, -8, -3, 2, 6, 10])
+    # a grid scaled down by 2^k is translated by 2^k * t only: a micrometre-size grid a
+    # kilometre away has node coordinates resolved to ~1e-7 of its own extent, so its geometry
+    # genuinely cannot be recovered from the floats (flux errors of 5e-7 relative were
+    # reported as violations on the unchanged tree, seed 7) - a conditioning matter of the
+    # input, not of the discretisation.  Far translations remain for unit-size and larger grids.
+    if k < 0:
+        t = [x * 2.0 ** k for x in t]
+    return {"q": q, "t": t, "k": k}
 
 
 def grid_spec(rng, tier):
@@ -383,7 +391,7 @@ class C11(Prop):
             "random lattice points, small 3-D CartGrid / StructuredTetrahedralGrid; all nodes (boundary "
             "included) perturbed by multiples of 1/64 in 70% of the cases (non-planar hexahedron faces in "
             "3-D); 40% of the grids moved by x -> 2^k R x + t with R an exact rational rotation "
-            "(coordinate planes, generic, tiny tilt), t up to (1000,-500,250), k in -20..10, the tensor "
+            "(coordinate planes, generic, tiny tilt), t up to (1000,-500,250) (scaled by 2^k for k < 0), k in -20..10, the tensor "
             "rotated with the grid (2-D grids embedded in 3-D with in-plane anisotropic K); K = L L^T "
             "with small integers incl. off-diagonal terms, scaled by 2^-20..2^10; every boundary face "
             "independently Dirichlet or Neumann (also all-Dirichlet, all-Neumann); half of the cases "
@@ -432,9 +440,20 @@ class C11(Prop):
             g = make_grid(spec)
             if rng.random() < 0.7 or (nsub_big is not None and spec["kind"] == "cart" and dim == 3):
                 amp = rng.choice([4, 8, 12])
-                spec["pert"] = [[rng.randint(-amp, amp) for _ in range(dim)]
-                                for _ in range(g.num_nodes)]
-                g = make_grid(spec)
+                nn = g.num_nodes
+                for _try in range(6):
+                    spec["pert"] = [[rng.randint(-amp, amp) for _ in range(dim)]
+                                    for _ in range(nn)]
+                    g = make_grid(spec)
+                    vol = g.cell_volumes
+                    # a perturbation may flatten a cell (sliver / zero area): that is not a
+                    # valid grid (its centroid is garbage, e.g. -6e11, and porepy's own
+                    # partition_coordinates asserts on it) - draw again, then give up
+                    if np.all(np.isfinite(g.cell_centers)) and vol.min() > 1e-3 * vol.mean():
+                        break
+                else:
+                    spec.pop("pert")
+                    g = make_grid(spec)
             bfaces = [int(f) for f in g.get_all_boundary_faces()]
             rb = rng.random()
             if rb < 0.12:
